@@ -74,6 +74,10 @@ pub struct SchedReader<'a> {
     pub sched: Sched,
     step: usize,
     pub fail_at: Option<usize>,
+    /// when set: once this many bytes were delivered, ONE read fails with
+    /// ErrorKind::Interrupted; the next read continues normally
+    pub interrupt_at: Option<usize>,
+    pub interrupted: bool,
     pub reads: usize,
     pub eof_reads: usize,
     /// offsets at which a read ended before the end of data (read boundaries)
@@ -83,7 +87,7 @@ pub struct SchedReader<'a> {
 
 impl<'a> SchedReader<'a> {
     pub fn new(data: &'a [u8], sched: Sched) -> Self {
-        SchedReader { data, pos: 0, sched, step: 0, fail_at: None, reads: 0, eof_reads: 0, boundaries: vec![], log_boundaries: false }
+        SchedReader { data, pos: 0, sched, step: 0, fail_at: None, interrupt_at: None, interrupted: false, reads: 0, eof_reads: 0, boundaries: vec![], log_boundaries: false }
     }
     pub fn failing(data: &'a [u8], sched: Sched, fail_at: usize) -> Self {
         let mut r = Self::new(data, sched);
@@ -101,6 +105,12 @@ impl<'a> Read for SchedReader<'a> {
         self.reads += 1;
         if buf.is_empty() {
             return Ok(0);
+        }
+        if let Some(k) = self.interrupt_at {
+            if self.pos >= k && !self.interrupted {
+                self.interrupted = true;
+                return Err(io::Error::new(io::ErrorKind::Interrupted, "INJECTED-INTERRUPT"));
+            }
         }
         let limit = self.fail_at.unwrap_or(usize::MAX).min(self.data.len());
         if let Some(k) = self.fail_at {
@@ -126,7 +136,12 @@ impl<'a> Read for SchedReader<'a> {
                 None => usize::MAX,
             },
         };
-        let n = want.min(buf.len()).min(remaining);
+        let mut n = want.min(buf.len()).min(remaining);
+        if let Some(k) = self.interrupt_at {
+            if !self.interrupted && self.pos < k {
+                n = n.min(k - self.pos);
+            }
+        }
         buf[..n].copy_from_slice(&self.data[self.pos..self.pos + n]);
         self.pos += n;
         if self.log_boundaries && self.pos < self.data.len() {
